@@ -246,7 +246,12 @@ int main(int argc, char** argv) {
 
 def scalar_block(i, kind, cpp):
     if kind == 'int':
-        return ('{ MM m; auto e = NAMED_ALLOW_CALL(m, fi(%s)); for (int x : {-1, 0, 1, 2, 3}) { char b[96]; '
+        import re as _re
+        desc = ''
+        if _re.fullmatch(r'trompeloeil::(eq|ne|lt|le|gt|ge)(<int>)?\(-?\d+\)', cpp):
+            # the matcher's own description (what a report prints after "Expected _1"): its operator and value
+            desc = '{ std::ostringstream os; os << %s; std::fprintf(g_out, "{\\"id\\":%%d,\\"desc\\":\\"%%s\\"}\\n", %d, os.str().c_str()); } ' % (cpp, i)
+        return (desc + '{ MM m; auto e = NAMED_ALLOW_CALL(m, fi(%s)); for (int x : {-1, 0, 1, 2, 3}) { char b[96]; '
                 'std::snprintf(b, sizeof b, "{\\"n\\":0,\\"v\\":%%d,\\"f\\":[0,0],\\"found\\":0}", x); logres(%d, b, probe([&]{ m.fi(x); })); } }' % (cpp, i))
     if kind in ('ptr', 'uptr', 'sptr'):
         fn = {'ptr': 'fp', 'uptr': 'fup', 'sptr': 'fsp'}[kind]
